@@ -3,7 +3,7 @@ import TenpyModel.C01.B2_Comb11
 C01 part B2 — part 12: for `new_axes=None` the computed new axes are distinct (non-empty, pairwise disjoint groups),
 so the hypothesis `hN` of `combineLegs_places_id / _tr` is automatic for the default call.
 -/
-namespace TenpyModel.C01B2
+namespace TenpyModel.C01B2.Comb
 open TenpyModel.Core TenpyModel.C01B
 
 theorem filter_lt_mono (l : List Nat) (x y : Nat) (h : x ≤ y) :
@@ -85,4 +85,4 @@ theorem combineLegs_default_hyps {α : Type} [Zero α] (a r : Arr α) (ha : a.WF
   rw [e] at this
   exact hne axs haxs (List.length_eq_zero_iff.1 this.symm)
 
-end TenpyModel.C01B2
+end TenpyModel.C01B2.Comb
